@@ -161,6 +161,13 @@ func (tdsChan *Channel) Reset() {
 func (tdsChan *Channel) Close() error {
 	var me error
 
+	tdsChan.RLock()
+	closed := tdsChan.closed
+	tdsChan.RUnlock()
+	if closed {
+		return ErrChannelClosed
+	}
+
 	if tdsChan.channelId == 0 {
 		// Channel 0 is the main communication channel - send logout packages
 		if err := tdsChan.Logout(); err != nil {
@@ -188,6 +195,10 @@ func (tdsChan *Channel) Close() error {
 	tdsChan.Lock()
 	defer tdsChan.Unlock()
 
+	if tdsChan.closed {
+		// Another goroutine closed the channel in the meantime.
+		return ErrChannelClosed
+	}
 	tdsChan.closed = true
 
 	// Channel closing has been communicated, remove channel from conn
